@@ -52,6 +52,11 @@ pub fn run(ctx: &mut Ctx) {
 }
 
 pub fn replay(prop: &str, family: &str, case: &J) -> Result<(), String> {
+	if let Some(target) = family.strip_prefix("fuzz:") {
+		std::env::set_var("JSV_FUZZ_PROP", prop);
+		let bytes = crate::framework::dec_bytes(case);
+		return crate::fuzzglue::run_target(target, &bytes).map(|_| ());
+	}
 	match prop {
 		"C01" => c01::replay(family, case),
 		"C02" => c02::replay(family, case),
